@@ -322,7 +322,32 @@ func (w *pubWalk) taintOf(e ast.Expr, env pubEnv) pubTaint {
 		case pkMsg:
 			return t
 		}
+	case *ast.CompositeLit:
+		// a slice / array / map literal that holds a published message: its elements are published
+		if _, isStruct := x.Type.(*ast.Ident); !isStruct && x.Type != nil {
+			if _, isSel := x.Type.(*ast.SelectorExpr); !isSel {
+				for _, el := range x.Elts {
+					if kv, ok := el.(*ast.KeyValueExpr); ok {
+						el = kv.Value
+					}
+					if t := w.taintOf(el, env); t.kind == pkMsg {
+						return pubTaint{pkSlice, t.label}
+					}
+				}
+			}
+		}
 	case *ast.CallExpr:
+		if id, ok := x.Fun.(*ast.Ident); ok && id.Name == "append" && len(x.Args) >= 1 {
+			if t := w.taintOf(x.Args[0], env); t.ok() {
+				return t
+			}
+			for _, el := range x.Args[1:] {
+				if t := w.taintOf(el, env); t.kind == pkMsg {
+					return pubTaint{pkSlice, t.label}
+				}
+			}
+			return pubTaint{}
+		}
 		if se, ok := x.Fun.(*ast.SelectorExpr); ok {
 			if full := w.resOf(se.X); full != "" {
 				switch se.Sel.Name {
